@@ -693,7 +693,7 @@ pub fn run(ctx: &mut Ctx) {
     let started = Instant::now();
 
     // round 0: the repository's assets
-    let assets: Vec<ProgramCase> = asset_cases();
+    let assets: Vec<ProgramCase> = asset_cases().into_iter().chain(catalogue_cases()).collect();
     if !assets.is_empty() {
         let saved = ctx.max_cases;
         let n = assets.len() as u64;
